@@ -529,6 +529,8 @@ class Interp(object):
     for kx in set(s1.ghost.keys()) | set(s2.ghost.keys()):
       x = s1.ghost.get(kx, _ABSENT)
       y = s2.ghost.get(kx, _ABSENT)
+      if isinstance(x, tuple) and isinstance(y, tuple) and len(x) != len(y):
+        return None        # ghost logs of different length: keep the paths apart
       v = self.merge_values(g1z, x, y, s1, s2)
       if v is _NOMERGE:
         return None
